@@ -132,3 +132,22 @@ compress_limit_none = Contract(
     "compress__limit_of_cut_bond[None]", {"temp_m_trunc": "opt[int]", "idx": "int", "to_right": "bool", "nsigma": "int", "cfg_m": "int"},
     requires=["temp_m_trunc is None", "nsigma >= 0", "0 <= idx"],
     ensures=[("configured_limit", "result == cfg_m")], bounds="prove")
+
+# ------------------------------------------------------------------------------------------------ canonical-form checks (C04)
+# check_left_canonical / check_right_canonical: whole-function extraction (vk/pyvc/slice.py:whole_function) with `len(self)` -> n and the per-site test
+# `self[i].check_lortho(rtol, atol)` -> ortho[i] (the numeric per-site isometry test is an assumed predicate; C18/C04 bounded parts own it).
+# The contract is the definition of the canonical forms: EVERY site except the one carrying the centre (last for left-, first for right-canonical) is tested.
+check_left = Contract(
+    "MatrixProduct.check_left_canonical", {"n": "int", "ortho": "list[bool]"}, requires=["n >= 1", "len(ortho) == n"],
+    ensures=[("true_iff_every_site_but_the_last_is_a_left_isometry", "result == all(ortho[k] for k in range(n - 1))")],
+    invariants={"for#0": [("C1-sites-seen-are-isometries", "all(ortho[k] for k in range(k_i))")]}, result="bool", bounds="prove")
+check_right = Contract(
+    "MatrixProduct.check_right_canonical", {"n": "int", "ortho": "list[bool]"}, requires=["n >= 1", "len(ortho) == n"],
+    ensures=[("true_iff_every_site_but_the_first_is_a_right_isometry", "result == all(ortho[k] for k in range(1, n))")],
+    invariants={"for#0": [("C1-sites-seen-are-isometries", "all(ortho[k] for k in range(1, 1 + k_i))")]}, result="bool", bounds="prove")
+CHECK_SLICES = {
+    "left": dict(qual="MatrixProduct.check_left_canonical", contract=check_left, subst={"len(self)": "n", "self[i].check_lortho(rtol, atol)": "ortho[i]"},
+                 must_hit=("len(self)", "self[i].check_lortho(rtol, atol)")),
+    "right": dict(qual="MatrixProduct.check_right_canonical", contract=check_right, subst={"len(self)": "n", "self[i].check_rortho(rtol, atol)": "ortho[i]"},
+                  must_hit=("len(self)", "self[i].check_rortho(rtol, atol)")),
+}
